@@ -228,7 +228,8 @@ def ast_parse_select_expression_to_column_infos(select_expression):
         raise RbqlParsingError('Unable to parse SELECT expression (error code #119): "{}"'.format(select_expression)) # This can be triggered with `SELECT a = 100`
     root = children[0]
     if isinstance(root, ast.Tuple):
-        column_expression_trees = root.elts
+        # Both `x, y` and a single parenthesized item `(x, y)` are parsed into ast.Tuple, a list display wrapper tells them apart
+        column_expression_trees = ast.parse('[' + select_expression + ']').body[0].value.elts
         column_infos = [column_info_from_node(ct) for ct in column_expression_trees]
     else:
         column_infos = [column_info_from_node(root)]
